@@ -442,6 +442,15 @@ func (r *runner) handleDeath(cfg wk.Config, name string, killer int64, pr procRe
 			r.a.mu.Unlock()
 			return
 		}
+		if !r.plan.HangIsViolation {
+			// the property does not bound time (generated programs can be exponential): the case is not judged,
+			// and not re-run either
+			r.a.mu.Lock()
+			r.a.incs[fmt.Sprintf("case %d did not finish within the watchdog budget (the property does not bound time)", killer)]++
+			r.a.cnt["inconclusive"]++
+			r.a.mu.Unlock()
+			return
+		}
 		// isolated re-run with 5x budget
 		b := r.plan.CaseBudget * 5
 		if b <= 0 {
